@@ -29,7 +29,7 @@ var corpus = []string{
 	`local mt = {__lt = function(a, b) emit("lt", a.v, b.v) return a.v < b.v end}; local a, b = setmetatable({v=1}, mt), setmetatable({v=2}, mt); emit(a < b, a > b, a <= b, a >= b)`,
 	`local mt = {__concat = function(a, b) emit("cc", type(a), type(b)) return "X" end}; local o = setmetatable({}, mt); emit(o .. "a", "a" .. o, 1 .. o, o .. o, "a" .. "b" .. o)`,
 	`local o = setmetatable({}, {__call = function(self, ...) emit("call", self ~= nil, ...) return ... end}); emit(o(1, 2)); emit(pcall(o, 3)); for i in o, 1, nil do emit("iter", i) break end`,
-	`local o = setmetatable({}, {__unm = function(a) return "neg" end, __tostring = function() return "str!" end, __metatable = "locked"}); emit(-o, tostring(o), getmetatable(o)); emit(pcall(setmetatable, o, {}))`,
+	`local o = setmetatable({}, {__unm = function(a) return "neg" end, __tostring = function() return "str!" end, __metatable = "locked"}); emit(-o, tostring(o), getmetatable(o)); emit(pcall(function() return setmetatable(o, {}) end))`,
 	`local u = newud(); local mt = {__index = function(u, k) return k .. "?" end, __add = function(a, b) return "ud+" end}; local v = newud(mt); emit(v.foo, v + 1, 2 + v, type(v)); emit(pcall(function() return u.x end))`,
 	`local depth = setmetatable({}, {__index = setmetatable({}, {__index = setmetatable({}, {__index = function(t, k) return "deep:" .. k end})})}); emit(depth.key); local nmt = setmetatable({}, {__newindex = setmetatable({}, {__newindex = function(t,k,v) emit("deepset", k, v) end})}); nmt.q = 1; emit(rawget(nmt, "q"))`,
 }
